@@ -432,7 +432,12 @@ pub fn run_impl(docs: &[Vec<u8>], cfg: &RCfg, tab: &mut ErrTab) -> ImplResult {
         let mut cur: Option<Element<String>> = None;
         for d in docs {
             match parse_one(d, cfg, cur.take()) {
-                Ok(e) => cur = Some(e),
+                Ok(e) => {
+                    // a caller may render after every step: whatever a rendering leaves behind on
+                    // the element must not influence later extensions or renderings
+                    let _ = e.to_serde_struct(&Options::quick_xml_de());
+                    cur = Some(e)
+                }
                 Err(e) => return Err(e),
             }
         }
